@@ -41,3 +41,41 @@ Theorem C19_cache_never_exceeds_capacity :
       Bnd keep (chunks s) -> run_maxheld res junk cs keep s ops <= keep.
 Proof. exact cache_bounded. Qed.
 Print Assumptions C19_cache_never_exceeds_capacity.
+
+(* The code before the repairs (96f1c8a, d7d4e3b) violated the history
+   theorem; witnesses replayed on the old implementation are the findings
+   recorded as "fixed" in known_findings.json. *)
+Theorem C19_old_keep1_keyerror_refuted :
+  exists ops, pos_ok res10 0 ops = true
+    /\ run_old res10 (fun _ _ => []) 4 1 init ops <> spec_run res10 0 ops
+    /\ In OKeyError (run_old res10 (fun _ _ => []) 4 1 init ops).
+Proof. exact old_keep1_keyerror. Qed.
+Print Assumptions C19_old_keep1_keyerror_refuted.
+
+Theorem C19_old_read_all_refuted :
+  exists ops, pos_ok res10 0 ops = true
+    /\ run_old res10 (fun _ _ => []) 4 2 init ops = [ONone; OData []]
+    /\ spec_run res10 0 ops = [ONone; OData [17; 18; 19]].
+Proof. exact old_read_all_empty. Qed.
+Print Assumptions C19_old_read_all_refuted.
+
+Theorem C19_old_read_across_eof_refuted :
+  exists ops, pos_ok res10 0 ops = true
+    /\ run_old res10 (fun _ _ => res10) 4 2 init ops
+       = [ONone; OData [15; 16; 17; 18; 19; 10]]
+    /\ spec_run res10 0 ops = [ONone; OData [15; 16; 17; 18; 19]].
+Proof. exact old_read_across_eof_junk. Qed.
+Print Assumptions C19_old_read_across_eof_refuted.
+
+Theorem C19_old_read0_moves_refuted :
+  exists ops, pos_ok res10 0 ops = true
+    /\ run_old res10 (fun _ _ => []) 4 2 init ops = [OData []; OPos 10]
+    /\ spec_run res10 0 ops = [OData []; OPos 0].
+Proof. exact old_read0_moves. Qed.
+Print Assumptions C19_old_read0_moves_refuted.
+
+(* keep_chunks >= 1 is necessary for the capacity theorem *)
+Theorem C19_keep0_bound_refuted :
+  exists ops, run_maxheld res10 (fun _ _ => []) 4 0 init ops > 0.
+Proof. exact keep0_bound_fails. Qed.
+Print Assumptions C19_keep0_bound_refuted.
